@@ -67,6 +67,7 @@ mutual
         ∀ x ∈ (evalVE cfg f pending par hobj hpart p ve).1.roots, x ∈ f.roots
     | .atom a, f, par, hobj, hpart, p, _ => by simp [evalVE, Tree.okAt]
     | .fresh, f, par, hobj, hpart, p, _ => by simp [evalVE, Tree.okAt]
+    | .freshTuple n, f, par, hobj, hpart, p, _ => by simp [evalVE, Tree.okAt]
     | .mkRef tgt, f, par, hobj, hpart, p, _ => by simp [evalVE, Tree.okAt, okItems]
     | .ref id, f, par, hobj, hpart, p, hf => by
       simp only [evalVE]
